@@ -5,8 +5,12 @@
 import Hv.Driver.Core
 import Hv.Driver.Vmdk
 import Hv.Meta
+<<<<<<< HEAD
 import Hv.HddOpen
 import Hv.Stream
+=======
+import Hv.MetaEnc
+>>>>>>> 2c6de393f023e82cab5a312b9ace4b1208b49a6f
 namespace Hv.Driver
 open Hv
 
@@ -89,7 +93,35 @@ def hddOut (d : Meta.Descriptor) : String :=
 
 def res (r : Except Err String) : String := match r with | .ok s => s | .error e => s!"err {e}"
 
+/-- `l1off,l1size,datesec,datensec,clock,vmstate,<extra>,<idhex|->,<namehex|->`;
+    extra = `n` | `a:large:disk` | `b:large:disk:icount` | `m:large:disk:icount:<tailhex|->` -/
+def parseSnapSpec (t : String) : Option Meta.SnapSpec :=
+  let hx (h : String) : Option Bytes := if h == "-" then some [] else (parseHex h).map (·.toList)
+  match t.splitOn "," with
+  | [a, b, c, d, e, f, x, i, n] => do
+    let extra ← (match x.splitOn ":" with
+      | ["n"] => some Meta.SnapExtra.none
+      | ["a", l, dk] => do some (.v16 (← l.toNat?) (← dk.toNat?))
+      | ["b", l, dk, ic] => do some (.v24 (← l.toNat?) (← dk.toNat?) (← ic.toNat?))
+      | ["m", l, dk, ic, tl] => do some (.more (← l.toNat?) (← dk.toNat?) (← ic.toNat?) (← hx tl))
+      | _ => none)
+    some { l1Offset := ← a.toNat?, l1Size := ← b.toNat?, dateSec := ← c.toNat?, dateNsec := ← d.toNat?, vmClock := ← e.toNat?,
+           vmStateSize := ← f.toNat?, extra, idStr := ← hx i, name := ← hx n }
+  | _ => none
+
+/-- the hypotheses of `snapshot_table_roundtrip` evaluated on a file (`hyp`: every spec in range and the table bytes at `off`
+    are exactly `encodeSnaps specs`) and the evaluated instance of its conclusion (`rt`) -/
+def snapEnc (fh : File) (off : Nat) (specs : List Meta.SnapSpec) : String :=
+  let e := Meta.encodeSnaps specs
+  let hyp := specs.all (·.ok) && decide (off + e.length ≤ fh.size) && decide (slice fh.byte off e.length = e)
+  let rt := decide (Meta.readSnapsFull fh specs.length off = .ok (specs.map Meta.SnapSpec.expected))
+  s!"ok {if hyp then 1 else 0} {if rt then 1 else 0}"
+
 def metaCmd (st : St) : List String → String
+  | "meta.snapenc" :: img :: off :: specs =>
+    match st.file? img, off.toNat?, specs.mapM parseSnapSpec with
+    | some fh, some o, some ss => snapEnc fh o ss
+    | _, _, _ => "bad-args"
   | ["meta.qcow2", img, data, b] =>
     match st.file? img with
     | some fh => res ((Meta.qcow2 fh (st.file? data) (b = "b")).map qmetaOut)
